@@ -308,6 +308,66 @@ def check_merge(ctx, tag, om, b1, b2, nxt, d1, d2, mid2, s1, kk):
     ctx.prove(tag + "/every-entry-of-block2-moves-to-key-plus-size-of-block1-with-its-value", z3.And(t, zint(key) == s1 + kk, z3.BoolVal(val is v0)))
 
 
+def native_replay(kind, align, perblock):
+    """native confirmation: the real join_blocks on concrete blocks of sizes 0..2 with an entry at EVERY offset of every offset-keyed
+    table and of cfiDirectives (block ends included), compared with the position-preservation statement"""
+    def rp(clause, model):
+        bad = []
+        for s1, s2 in itertools.product((0, 1, 2), repeat=2):
+            ir, m = create_test_module(gtirb.Module.FileFormat.ELF, gtirb.Module.ISA.X64)
+            _, bi = add_text_section(m, address=0x1000)
+            mk = add_code_block if kind == "code" else add_data_block
+            prev, b1, b2, nxt = mk(bi, b"\x90"), mk(bi, b"\x90" * s1), mk(bi, b"\x90" * s2), mk(bi, b"\x90\xc3")
+            fl = []
+            if kind == "code":
+                add_edge(ir.cfg, prev, b1, gtirb.EdgeType.Fallthrough)
+                add_edge(ir.cfg, b1, b2, gtirb.EdgeType.Fallthrough)
+                add_edge(ir.cfg, b2, nxt, gtirb.EdgeType.Fallthrough)
+                add_function(m, add_symbol(m, "f", prev), prev, {b1, b2, nxt})
+                fl = gtirb_functions.Function.build_functions(m)
+            o = b1.offset
+            com = {gtirb.Offset(b, k): "c%d" % (b.offset + k) for b in (b1, b2) for k in range(b.size)}
+            cfi = {gtirb.Offset(b, k): [(".cfi_undefined", [b.offset + k, i], NULL_UUID)] for i, b in enumerate((b1, b2)) for k in range(b.size + 1)}
+            _auxdata.comments.set(m, dict(com))
+            _auxdata.cfi_directives.set(m, {k: list(v) for k, v in cfi.items()})
+            if align != "none":
+                _auxdata.alignment.set(m, {"b2": {b2: 16}, "b1": {b1: 8}, "both": {b1: 4, b2: 16}, "b2weaker": {b1: 16, b2: 4}}[align])
+            if perblock and kind == "code":
+                _auxdata.profile.set(m, {b1: 7, b2: 9})
+            with make_modify_cache(m, fl) as cache:
+                try:
+                    JN.join_blocks(cache, b1, b2)
+                except JN.UnjoinableBlocksError:
+                    continue
+            desc = "sizes (%d, %d)" % (s1, s2)
+            if (b1.offset, b1.size) != (o, s1 + s2) or b2.byte_interval is not None:
+                bad.append("%s: geometry %s" % (desc, (b1.offset, b1.size)))
+            got = {k.element_id.offset + k.displacement: v for k, v in _auxdata.comments.get(m).items() if k.element_id is b1}
+            want = {b.offset + k.displacement if False else int(v[1:]): v for k, v in com.items() for b in (k.element_id,)}
+            if got != want or any(k.element_id is b2 for k in _auxdata.comments.get(m)):
+                bad.append("%s: comments at %s expected %s" % (desc, sorted(got), sorted(want)))
+            gotc = {}
+            for k, v in _auxdata.cfi_directives.get(m).items():
+                if k.element_id is b1:
+                    gotc[o + k.displacement] = [tuple(d[1]) for d in v]
+                elif k.element_id is b2:
+                    bad.append("%s: directives left on block2" % desc)
+            wantc = {}
+            for i, (b, sz, off) in enumerate(((b1, s1, o), (b2, s2, o + s1))):
+                for k in range(sz + 1):
+                    wantc.setdefault(off + k, []).append((off + k, i))
+            if gotc != wantc:
+                bad.append("%s: cfi %s expected %s" % (desc, sorted(gotc.items()), sorted(wantc.items())))
+            al = _auxdata.alignment.get(m) or {}
+            if b2 in al:
+                bad.append("%s: alignment entry of block2 left" % desc)
+            pf = _auxdata.profile.get(m) or {}
+            if b2 in pf or (perblock and kind == "code" and pf.get(b1) != (9 if s1 == 0 else 7)):
+                bad.append("%s: profile %s" % (desc, {("b1" if k is b1 else "b2"): v for k, v in pf.items()}))
+        return {"confirmed": bool(bad), "observed": bad[:3] if bad else "concrete joins of sizes 0..2 satisfy the statement"}
+    return rp
+
+
 class setup:
     def __enter__(self):
         self.cms = [shims.installed([JN]), instrument.instrumented({"join:join_blocks": (JN.join_blocks, {5: CfiMerge}, True)})]
@@ -326,12 +386,12 @@ def jobs(tier="quick", seed=0):
         for which in (0, 1, 2, "cfi"):
             for b1maps in (True, False):
                 yield Job("K/join_blocks/T/%s/table=%s/%s" % (kind, which, "block1-has-a-map" if b1maps else "block1-has-no-map"),
-                          tables_harness(kind, "none", False, b1maps, which), setup=setup, kind="D", func="gtirb_rewriting._modify.join:join_blocks",
+                          tables_harness(kind, "none", False, b1maps, which), setup=setup, kind="D", func="gtirb_rewriting._modify.join:join_blocks", replay=native_replay(kind, "none", False),
                           expect_cover=("joined",) + (("loop-preserved:join:join_blocks#5", "loop-exit:join:join_blocks#5") if which == "cfi" else ()), timeout_ms=30000)
         for align in ("none", "b2", "b1", "both", "b2weaker"):
             for perblock in (False, True):
                 yield Job("K/join_blocks/T/%s/align=%s/%s" % (kind, align, "perblock" if perblock else "noperblock"),
-                          tables_harness(kind, align, perblock, False, None), setup=setup, kind="D", func="gtirb_rewriting._modify.join:join_blocks",
+                          tables_harness(kind, align, perblock, False, None), setup=setup, kind="D", func="gtirb_rewriting._modify.join:join_blocks", replay=native_replay(kind, align, perblock),
                           expect_cover=("joined",), timeout_ms=30000)
 
 
